@@ -202,6 +202,18 @@ Theorem C18_constants_sane :
 Proof. exact consts_facts. Qed.
 Print Assumptions C18_constants_sane.
 
+(* "specified durations": the constants of the working tree are those of TS 103 300-3 Table 15 *)
+Theorem C18_constants_match_standard :
+  time_cluster_uniqueness_threshold = 30 * ticks_per_second /\
+  time_cluster_breakup_warning = 3 * ticks_per_second /\
+  time_cluster_join_notification = 3 * ticks_per_second /\
+  2 * time_cluster_join_success = ticks_per_second /\
+  time_cluster_continuity = 2 * ticks_per_second /\
+  time_cluster_leave_notification = ticks_per_second /\
+  4 * quarter_second = ticks_per_second.
+Proof. exact consts_standard. Qed.
+Print Assumptions C18_constants_match_standard.
+
 (* Non-vacuity: the hypotheses of the theorems above are met by concrete reachable states. *)
 Example C18_example_passive :
   reachable ex_passive /\ vst ex_passive = Passive /\ leader ex_passive = Some (sender ex_cpm_vam).
